@@ -2081,6 +2081,11 @@ func (p *Parser) parsePoryswitchStatements(scriptName string, allowMultiple bool
 	return statements, impData, nil
 }
 
+// Constants are expanded when they are defined, so a chain of constants that each
+// use the previous one twice doubles the stored text at every step. Bounding the
+// length of a value keeps every later expansion linear in the size of the input.
+const maxConstValueLength = 9999
+
 func (p *Parser) parseConstant() error {
 	initialToken := p.curToken
 	if err := p.expectPeek(token.IDENT); err != nil {
@@ -2110,6 +2115,9 @@ func (p *Parser) parseConstant() error {
 
 	if sb.Len() == 0 {
 		return NewRangeParseError(initialToken, equalsToken, fmt.Sprintf("missing value for const '%s'", constName))
+	}
+	if sb.Len() > maxConstValueLength {
+		return NewRangeParseError(initialToken, p.curToken, fmt.Sprintf("value of const '%s' is too long. Maximum is %d characters", constName, maxConstValueLength))
 	}
 	p.constants[constName] = sb.String()
 	return nil
